@@ -152,7 +152,9 @@ func execEnv(env expand.Environ) []string {
 
 func (r *Runner) lookupVar(name string) expand.Variable {
 	if name == "" {
-		panic("variable name must not be empty")
+		// An empty name can come from the user, e.g. `unset ""` or `[[ -v "" ]]`;
+		// it never names a variable.
+		return expand.Variable{}
 	}
 	var vr expand.Variable
 	switch name {
